@@ -599,4 +599,8 @@ func identical(a, b slip.Object) (same bool) {
 	return a == b
 }
 
+func reflectComparable(a slip.Object) bool {
+	return a != nil && reflect.TypeOf(a).Comparable() && reflect.TypeOf(a).Kind() == reflect.Ptr
+}
+
 var _ = fmt.Sprintf
